@@ -241,15 +241,37 @@ func (fc *FuncCtx) prepare() {
 	loopN := 0
 	retN := 0
 	callN := map[string]int{}
+	retryLits := map[*ast.FuncLit]bool{}
+	deferLits := map[*ast.FuncLit]bool{}
+	ast.Inspect(fc.decl.Body, func(n ast.Node) bool {
+		switch x := n.(type) {
+		case *ast.CallExpr:
+			if calleeName(x) == "RetryOnConflict" && len(x.Args) == 2 {
+				if lit, ok := ast.Unparen(x.Args[1]).(*ast.FuncLit); ok {
+					retryLits[lit] = true
+				}
+			}
+		case *ast.DeferStmt:
+			if lit, ok := x.Call.Fun.(*ast.FuncLit); ok {
+				deferLits[lit] = true
+			}
+		}
+		return true
+	})
 	ast.Inspect(fc.decl.Body, func(n ast.Node) bool {
 		switch x := n.(type) {
 		case *ast.ForStmt, *ast.RangeStmt:
 			loopN++
 			fc.loopOrd[n] = loopN
 		case *ast.FuncLit:
-			// the closure handed to retry.RetryOnConflict is treated as a loop body
-			loopN++
-			fc.loopOrd[n] = loopN
+			// the closure handed to retry.RetryOnConflict is treated as a loop body; deferred literals
+			// are executed in place; any other literal is an opaque value whose body is not entered
+			if retryLits[x] {
+				loopN++
+				fc.loopOrd[n] = loopN
+			} else if !deferLits[x] {
+				return false
+			}
 		case *ast.ReturnStmt:
 			retN++
 			fc.retOrd[x] = retN
@@ -934,7 +956,9 @@ func (fc *FuncCtx) convertTo(v *Value, to *Shape) *Value {
 			return &Value{Sh: to, L: v.L}
 		}
 		if v.Sh.Kind == KIface {
-			return scalar(to, v.L[1])
+			// nil interface -> nil error; a non-nil interface value is a non-nil error
+			// (a typed nil pointer inside an error interface is not modelled)
+			return scalar(to, ite(eq(v.L[0], "0"), "0", ite(eq(v.L[1], "0"), "1", v.L[1])))
 		}
 		if v.Sh.Kind == KRef {
 			// a pointer type implementing error
